@@ -24,7 +24,14 @@ SPEC = {
             "leading zeros, leading/trailing point, e/E with signed and zero-padded exponents, 40-800 digits, at the subnormal / underflow / overflow "
             "boundaries of the target type and ended by the end of the text (overflow judged as 'infinity or largest finite', underflow as "
             "'a zero of either sign'); hex floats, nan, infinity/INF, octal-looking, 0X, out-of-width and >2^64 integers are executed and counted "
-            "only; the totality part walks every prefix of ~125 number spellings after every marker with 22 terminators. distinct_nontrivial = distinct (operation, generator/address "
+            "only; the totality part walks every prefix of ~125 number spellings after every marker with 22 terminators. "
+            "Prior history: for every entry of the shared catalogue of ~280 earlier unrelated uses of phosg's helpers (one string_printf output of "
+            "every length 0..132 and around every power of two up to 1 MiB, runs of 5000 short outputs, join/split/fgets ladders, escapers, "
+            "formatters, hash hex; harness/vf_history.hh) plus a seeded sample of two-step histories, a FRESH thread runs the prior and then a "
+            "mini-workload ordered from short to long: 50 data-string round trips (lengths 0..300, quoted/hex, 6 mask kinds; inline oracle), "
+            "the first 12 grammar texts of the shard (Python reference parser) and 46 dumps of 0..80 bytes at 6 address kinds x 12 flag sets, "
+            "plain and colour+prev, a third of them through print_data(FILE*) (Python dump decoder); keys <op>:prior-history:<family>:... "
+            "distinct_nontrivial = distinct (operation, generator/address "
             "kind, form/colour mode, mask/flag) classes observed, e.g. rt:meta-heavy:quoted:runs, dump:2^64-len:color+prev, "
             "grammar:int64-neg:be:off.",
     "level_text": "Exploration: seeded generation plus completely enumerated small scopes, each execution judged by an "
@@ -86,6 +93,10 @@ SPEC = {
         "dump:flag:PRINT_ASCII", "dump:flag:SKIP_SEPARATOR", "dump:flag:COLLAPSE_ZERO_LINES", "dump:flag:OFFSET_8_BITS",
         "dump:flag:OFFSET_64_BITS", "dump:flag:REVERSE_ENDIAN_FLOATS", "dump:flag:DISABLE_COLOR", "dump:flag:USE_COLOR",
         "fuzz:process-completed-all-runs",
+        "prior:none:rt", "prior:printf-len:rt", "prior:printf-run:rt", "prior:join:rt", "prior:split:rt", "prior:fgets:rt", "prior:escape:rt",
+        "prior:format:rt", "prior:hash-hex:rt", "prior:two-step:rt", "rt:prior-history:quoted:*", "rt:prior-history:hex:*",
+        "prior:none:io", "prior:printf-len:io", "prior:printf-run:io", "prior:join:io", "prior:fgets:io", "prior:escape:io", "prior:two-step:io",
+        "prior:printf-len:judged-by-python", "prior:printf-run:judged-by-python", "prior:two-step:judged-by-python",
     ],
     "exhaustive": {"quick": False, "thorough": False},
     "exhaustive_note": "enumerated completely inside the sampled whole: all 1- and 2-byte data strings (x flags x 4 masks); "
